@@ -30,3 +30,11 @@ CHECKS["C10"] = (
     "Trusted: float64 construction A=Q diag(lambda) Q^T (oracle error n*u64*cond, negligible below the 0.1 cut-off except near 1/u64), the first-order bound form calibrated on the unchanged tree (max observed ratio reported in evidence).",
     "DESIGN.md 3 C10, 1.4",
 )
+
+CHECKS["C11"] = (
+    "exploration",
+    "runtime monitoring: the eigendecomposition-based inverse root executed on degenerate symmetric inputs (zero, rank-deficient, slightly indefinite, ties) incl. the injected-failure retry path, judged by algebraic invariants evaluated in float64",
+    "Per call: finite; symmetric to rounding; spectrum <= epsilon^(-1/r)(1+delta) with delta at rounding level; strictly positive definite wherever the smallest eigenvalue is above rounding (weak form below); commutes with the input; orthogonal equivariance f(QAQ^T)=Q f(A) Q^T within twice the C10 bound; rejection of every non-square / non-2-D shape with more than one element. Sizes 1..64, float32/float64, both EigenConfig variants, ~1.6k calls quick / ~24k thorough. Sampled.",
+    "Trusted: float64 eigvalsh for the judged spectra; Haar rotations generated in float64. The torch.linalg.eigh failure is injected by the harness (monkeypatch restored after the call).",
+    "DESIGN.md 3 C11",
+)
